@@ -251,6 +251,20 @@ impl Property for EngineProp {
             .boxed()
     }
 
+    fn fuzz_case(&self, data: &[u8]) -> Option<SimCase> {
+        if data.len() < 2 {
+            return None;
+        }
+        // first byte: which of the property's generator profiles (same 3:1 mix as the strategy)
+        let p = match self.alt_profile {
+            Some(alt) if data[0] % 4 == 3 => alt(Tier::Thorough),
+            _ => (self.profile)(Tier::Thorough),
+        };
+        let mut c = crate::bytegen::sim_case_from(&data[1..], &p);
+        (self.fixup)(&mut c);
+        Some(c)
+    }
+
     fn check(&self, case: &SimCase) -> CaseReport {
         let tr = Sim::run(case);
         dump_trace(&tr);
